@@ -351,6 +351,32 @@ def fam_random_stmts(pool, rng, n):
     return ks
 
 
+def fam_constfold(rng, n):
+    """all-literal expressions (the compiler may evaluate them at compile time: IR constant folding,
+    asm constant propagation) against the reference semantics; operands are drawn from the boundary
+    sets. No input quantifier here: this is the enumerated half of C06 (it also reaches the u256
+    folding arms that the Kani harnesses exclude)."""
+    ks = []
+    combos = []
+    for ty in (U8, U16, U32, U64, U256):
+        ops = ARITH + BITS + CMPS + ['<<', '>>']
+        for op in ops:
+            for a in BOUNDARY[ty.w]:
+                for b in (BOUNDARY[64] if op in ('<<', '>>') else BOUNDARY[ty.w]):
+                    combos.append((ty, op, a, b))
+    rng.shuffle(combos)
+    for i, (ty, op, a, b) in enumerate(combos[:n]):
+        rt = U64 if op in ('<<', '>>') else ty
+        ret = BOOL if op in CMPS else ty
+        nm = f'cf{i}_{ty.sway()}_{OPN[op]}'
+        e = Bin(op, Lit(ty, a), Lit(rt, b))
+        # a second, nested shape: (a op b) combined with an identity so that folding happens in two steps
+        if i % 3 == 0 and op not in CMPS:
+            e = Bin('|', e, Lit(ty, 0))
+        ks.append(Kernel(nm, [Fn(nm, [], ret, Block([], e))], nm, [], 'constfold', f'{a:#x} {op} {b:#x} on {ty.sway()}'))
+    return ks
+
+
 def fam_control(pool):
     """hand-shaped control-flow kernels: loops with concrete bounds, break/continue, early return,
     nested ifs, mutation."""
@@ -826,6 +852,7 @@ def build_corpus(tier='quick', seed=0, asm_rules=None, families=None):
     const_ks = fam_const_operand('int', [U8, U16, U32, U64], rng, per_type=6 if tier == 'quick' else 40)
     rand_ks = fam_random_exprs('int', rng, 24 if tier == 'quick' else 160, depth=3)
     rand_ks += fam_random_stmts('int', rng, 16 if tier == 'quick' else 120)
+    cf_ks = fam_constfold(rng, 60 if tier == 'quick' else 600)
     wide_ks = fam_binops('wide', [U256]) + fam_wide('wide') + fam_const_operand('wide', [U256], rng, per_type=6 if tier == 'quick' else 30)
     bool_ks = fam_bool('bool') + fam_random_exprs('bool', rng, 8 if tier == 'quick' else 40, depth=3)
     agg_ks = fam_aggregates('agg')
@@ -840,6 +867,8 @@ def build_corpus(tier='quick', seed=0, asm_rules=None, families=None):
         pk.append(Package(f'kconst{i}', 'int', c))
     for i, c in enumerate(chunk(rand_ks, per)):
         pk.append(Package(f'krand{i}', 'int', c))
+    for i, c in enumerate(chunk(cf_ks, per)):
+        pk.append(Package(f'kcf{i}', 'int', c))
     for i, c in enumerate(chunk(wide_ks, per)):
         pk.append(Package(f'kwide{i}', 'wide', c))
     for i, c in enumerate(chunk(bool_ks, per)):
